@@ -36,16 +36,19 @@ ParamOK ==
   /\ FixNotify /\ FixTimer /\ FixSetHead
 
 (* --------------------------------------------------------------------- types *)
-\* the type part: every variable is constrained
-TypeInv ==
+\* the type part: every variable is constrained (in named pieces, so that proofs can address them one by one)
+TI_Conn ==
   /\ DOMAIN head = Conns /\ DOMAIN alive = Conns /\ DOMAIN rtt = Conns /\ DOMAIN clk = Conns
   /\ DOMAIN cpc = Conns /\ DOMAIN cnew = Conns
   /\ \A k \in Conns : /\ head[k] \in Nat /\ alive[k] \in BOOLEAN /\ rtt[k] \in Nat /\ clk[k] \in BOOLEAN
                        /\ cpc[k] \in CPcs /\ cnew[k] \in Nat
+TI_Upd ==
   /\ Len(updCh) <= UpdCap
   /\ \A i \in DOMAIN updCh : updCh[i][1] \in Conns /\ updCh[i][2] \in Nat
+TI_Pool ==
   /\ rw.w \in Procs /\ rw.pend \in Procs /\ rw.r \subseteq Procs
   /\ best \in Conns
+TI_Wait ==
   /\ DOMAIN reg = Waiters /\ DOMAIN ch = Waiters /\ DOMAIN wpc = Waiters /\ DOMAIN want = Waiters
   /\ DOMAIN tmo = Waiters /\ DOMAIN hread = Waiters /\ DOMAIN timer = Waiters /\ DOMAIN orig = Waiters
   /\ DOMAIN cancelled = Waiters /\ DOMAIN result = Waiters /\ DOMAIN okby = Waiters /\ DOMAIN rett = Waiters
@@ -53,49 +56,60 @@ TypeInv ==
        /\ reg[w] \in BOOLEAN /\ wpc[w] \in WPcs /\ cancelled[w] \in BOOLEAN /\ result[w] \in Results
        /\ want[w] \in Nat /\ tmo[w] \in Nat /\ hread[w] \in Nat /\ timer[w] \in Nat /\ orig[w] \in Nat /\ rett[w] \in Nat
        /\ okby[w][1] \in Nat /\ okby[w][2] \in Nat /\ okby[w][3] \in Nat
+TI_Chan ==
+  \A w \in Waiters :
        /\ Len(ch[w]) <= WCap
        /\ \A i \in DOMAIN ch[w] : ch[w][i][1] \in Nat /\ ch[w][i][2] \in Conns /\ ch[w][i][3] \in Conns
+TI_Run ==
   /\ rpc \in RPcs /\ rupd[1] \in Nat /\ rupd[2] \in Nat /\ rtodo \subseteq Waiters
   /\ now \in Nat /\ flips \in Nat /\ now <= MaxTime
+TypeInv == TI_Conn /\ TI_Upd /\ TI_Pool /\ TI_Wait /\ TI_Chan /\ TI_Run
 
 (* ----------------------------------------------------------- lock discipline *)
-LockInv ==
-  \* the RWMutex itself: a writer excludes readers; the only reader there ever is, is the run loop
+\* the RWMutex itself: a writer excludes readers; the only reader there ever is, is the run loop
+LI_RW ==
   /\ rw.w # None => rw.pend = rw.w /\ rw.r = {}
   /\ rw.r \subseteq {RunP}
-  \* who holds what is a function of the program counters
+\* who holds what is a function of the program counters; notifySubscribers is in its loop only while somebody
+\* is left to notify
+LI_Run ==
   /\ RunP \in rw.r <=> rpc \in {"send", "exit"}
   /\ rw.pend = RunP <=> rpc \in {"upd_acq", "upd_in"}
   /\ rw.w = RunP <=> rpc = "upd_in"
-  /\ \A w \in Waiters : /\ rw.pend = w <=> wpc[w] \in WPend
-                        /\ rw.w = w <=> wpc[w] \in WIn
-  \* notifySubscribers is in its loop only while somebody is left to notify
   /\ rpc = "send" => rtodo # {}
-  \* the wait list: an entry exists only while its owner is between subscribe and unsubscribe; the run loop's
-  \* work list is a snapshot of the wait list that stays valid as long as the read lock is held; a channel is
-  \* empty until its owner's subscribe has finished
+LI_Wait ==
+  \A w \in Waiters : /\ rw.pend = w <=> wpc[w] \in WPend
+                     /\ rw.w = w <=> wpc[w] \in WIn
+\* the wait list: an entry exists only while its owner is between subscribe and unsubscribe; the run loop's
+\* work list is a snapshot of the wait list that stays valid as long as the read lock is held; a channel is
+\* empty until its owner's subscribe has finished
+LI_Reg ==
   /\ \A w \in Waiters : reg[w] => wpc[w] \in {"waiting", "unsub", "unsub_acq", "unsub_in"}
   /\ rpc = "send" => \A w \in rtodo : reg[w]
   /\ \A w \in Waiters : wpc[w] \in {"idle", "sub", "sub_acq", "sub_in", "sub_rd"} => ch[w] = <<>>
-  \* connection lock: held exactly between Lock and the end of the update (repaired SetMasterHead)
-  /\ \A k \in Conns : clk[k] <=> cpc[k] = "locked"
+\* connection lock: held exactly between Lock and the end of the update (repaired SetMasterHead)
+LI_Clk == \A k \in Conns : clk[k] <=> cpc[k] = "locked"
+LockInv == LI_RW /\ LI_Run /\ LI_Wait /\ LI_Reg /\ LI_Clk
 
 (* --------------------------------------------------- justification of results *)
 \* a head value that is around was reported by the connection it is attributed to
 \* @type: (<<Int, Int, Int>>) => Bool;
 MsgOK(m) == m[2] \in Conns /\ head[m[2]] >= m[1] /\ m[2] = m[3]
-DataInv ==
+DI_Upd ==
   /\ \A i \in DOMAIN updCh : head[updCh[i][1]] >= updCh[i][2]
   /\ \A k \in Conns : cpc[k] = "send" => head[k] >= cnew[k]
+DI_Run ==
   /\ rpc # "idle" /\ rpc # "upd_acq" /\ rpc # "upd_in" => rupd[1] \in Conns /\ head[rupd[1]] >= rupd[2]
   /\ rpc = "send" => rupd[1] = best
-  /\ \A w \in Waiters :
-       /\ \A i \in DOMAIN ch[w] : MsgOK(ch[w][i])
+DI_Chan == \A w \in Waiters : \A i \in DOMAIN ch[w] : MsgOK(ch[w][i])
+DI_Wait ==
+  \A w \in Waiters :
        /\ wpc[w] = "sub_rd" => head[best] >= hread[w]
        /\ result[w] = "ok" => okby[w][1] >= want[w] /\ MsgOK(okby[w])
        /\ result[w] = "timeout" => orig[w] # Inf /\ rett[w] >= orig[w]
        /\ result[w] = "cancel" => cancelled[w]
        /\ wpc[w] \in {"idle", "sub", "sub_acq", "sub_in", "sub_rd", "waiting"} => result[w] = "none"
+DataInv == DI_Upd /\ DI_Run /\ DI_Chan /\ DI_Wait
 
 (* ------------------------------------------------------------------ deadlines *)
 \* the timer is created once per call; while the call is past its select the clock has not passed the deadline
